@@ -7,6 +7,7 @@ package app
 import (
 	"context"
 	"encoding/binary"
+	"errors"
 	"fmt"
 	"net/http"
 	"net/http/httptest"
@@ -32,6 +33,8 @@ type vfRecWriter struct {
 	body []byte
 	evs  []vfWriteEv
 	t0   time.Time
+	// failAt > 0: the failAt-th and every later Write fails (the client has gone away)
+	failAt, writes int
 }
 
 func (w *vfRecWriter) Header() http.Header { return w.hdr }
@@ -43,6 +46,10 @@ func (w *vfRecWriter) WriteHeader(c int) {
 func (w *vfRecWriter) Write(b []byte) (int, error) {
 	w.mu.Lock()
 	defer w.mu.Unlock()
+	w.writes++
+	if w.failAt > 0 && w.writes >= w.failAt {
+		return 0, errors.New("client went away")
+	}
 	if w.code == 0 {
 		w.code = 200
 	}
@@ -157,6 +164,9 @@ func TestVerifC09(t *testing.T) {
 						}
 					}
 					unpaced = append(unpaced, job{w, rp, n, ato, cs, -1, "too-early", startS})
+					if ai == 1 || ai == 3 {
+						unpaced = append(unpaced, job{w, rp, n, ato, cs, ato + 1, "after-failed-write", startS})
+					}
 					// paced requests with a non-zero start time for every representation (the pacing clock includes AST)
 					if k == 1 && ai == 2 && ato <= 3000 {
 						mustPaced = append(mustPaced, job{w, rp, n, ato, cs, 0, "at-availability", 1000})
@@ -205,6 +215,15 @@ func TestVerifC09(t *testing.T) {
 			return
 		}
 		u := vfURL(cfg, j.w.Ref.Path, vfMediaURL(rp, uint64(j.n)), nowMS)
+		if j.kind == "after-failed-write" {
+			// a client that goes away in the middle of another chunked response must leave nothing behind for the next response
+			fu := vfURL(cfg, j.w.Ref.Path, vfMediaURL(rp, uint64(j.n+1)), nowMS+20_000)
+			for _, fa := range []int{2, 1} {
+				frec := &vfRecWriter{hdr: http.Header{}, failAt: fa}
+				frec.t0 = time.Now()
+				j.w.Srv.Router.ServeHTTP(frec, httptest.NewRequest("GET", fu, nil))
+			}
+		}
 		rec := &vfRecWriter{hdr: http.Header{}}
 		req := httptest.NewRequest("GET", u, nil)
 		if j.kind == "cancelled-midway" {
